@@ -34,7 +34,7 @@ ASSUMPTIONS = ["six 1.17 shim on sys.path (pinned six 1.10 cannot import protobu
                "context switches happen at simulated primitives and at PEP-669 LINE/PY_START events of "
                "yowsup/consonance/asyncore code; C extension calls are atomic",
                "Noise primitives of dissononce are shared by client and responder double"]
-BUDGET = {"quick": (8000, 170), "thorough": (80000, 2400)}
+BUDGET = {"quick": (8000, 170), "thorough": (200000, 2700)}
 FAULTS = ["tcp_cut", "tcp_coalesce", "connect_refused", "peer_fin", "rst", "short_send", "srv_bad_serverhello",
           "srv_close_after_hello", "srv_frames_behind_hello", "client_disconnect_in_handshake"]
 PROBES = ["variant_XX", "variant_IK", "variant_XXfallback", "config_rewritten", "frame_queued_while_handshake",
